@@ -155,6 +155,72 @@ def check_pair(S, T, env, res, width=3):
         )
 
 
+def _lazy(S):
+    from pydra.engine.lazy import LazyOutField
+
+    return LazyOutField(node=None, field="out", type=S)
+
+
+def _accepts(conv, lf):
+    try:
+        conv(lf)
+    except TypeError:
+        return False
+    return True
+
+
+HISTORIES = ("fresh", "after-accepted-by-its-own-type", "after-accepted-by-Any", "after-a-rejected-connection", "copy-of-an-accepted-field")
+
+
+def lazy_with_history(S, hist):
+    """the lazy output field of type S a workflow constructor holds after an earlier use of the SAME object"""
+    from pydra.utils.typing import TypeParser
+    import attrs
+
+    lf = _lazy(S)
+    if hist == "after-accepted-by-its-own-type":
+        TypeParser(S)(lf)
+    elif hist == "after-accepted-by-Any":
+        TypeParser(ty.Any)(lf)
+    elif hist == "after-a-rejected-connection":
+        _accepts(TypeParser(_Unrelated), lf)
+    elif hist == "copy-of-an-accepted-field":
+        TypeParser(S)(lf)
+        lf = attrs.evolve(lf)
+    return lf
+
+
+class _Unrelated:
+    pass
+
+
+def check_lazy_history(S, T, res):
+    """what the converter of an input of type T answers for a lazy field of type S must be the static check
+    TypeParser(T).check_type(S) -- for the strict parser exactly, for the task-field converter (which adds the
+    permissive super-to-sub rule) the same answer as for a fresh field -- whatever happened to the field before"""
+    from pydra.utils.typing import TypeParser
+
+    P, F = TypeParser(T), field_converter(T)
+    st = static_ok(T, S)
+    fresh_field = _accepts(F, _lazy(S))
+    sn, tn = R.tname(S), R.tname(T)
+    for hist in HISTORIES:
+        res["evals"] += 1
+        a = _accepts(P, lazy_with_history(S, hist))
+        b = _accepts(F, lazy_with_history(S, hist))
+        if a != st or b != fresh_field or (st and not b):
+            res["fails"].append(
+                (
+                    None,
+                    f"lazy field of type {sn} ({hist}) offered to an input of type {tn}: strict converter {'accepts' if a else 'rejects'} it, task-field converter {'accepts' if b else 'rejects'} it; "
+                    f"static check TypeParser({tn}).check_type({sn}) {'accepts' if st else 'rejects'}, task-field converter on a fresh field {'accepts' if fresh_field else 'rejects'}",
+                    {"S": sn, "T": tn, "kind": "lazy-history", "history": hist},
+                )
+            )
+    if len(res["samples"]) < 2 and sn != tn and st:
+        res["samples"].append({"S": sn, "T": tn, "static": st, "histories": list(HISTORIES)})
+
+
 def _new_res():
     return {"pairs": 0, "accepted": 0, "evals": 0, "exempt": 0, "fails": [], "samples": []}
 
@@ -176,7 +242,13 @@ def _work(arg):
         T = targets[i]
         for S in related_sources(T, g1, seed, _G["n2"], _G["n1"]):
             check_pair(S, T, env, r2, width=2)
-    res["d1"], res["d2"] = r1, r2
+    # domain 3: the converter's answer for a lazy field is the static check, whatever the field's history
+    r3 = _new_res()
+    for i in range(start, len(g1), step):
+        for S in g1:
+            r3["pairs"] += 1
+            check_lazy_history(S, g1[i], r3)
+    res["d1"], res["d2"], res["d3"] = r1, r2, r3
     return res
 
 
@@ -222,13 +294,19 @@ def run(ctx):
             rule="as above",
             exhaustive=False,
         )
-        dom1.keys, dom2.keys = CountedKeys(), CountedKeys()
+        dom3 = ctx.domain(
+            "lazy field with a history -> input converter",
+            bound=f"every ordered pair (S, T) of the {len(g1)} depth<=1 types x histories of the lazy output field object {list(HISTORIES)}: strict TypeParser(T) and the make_converter converter of a task field of type T",
+            rule="one case per (S, T, history); the strict converter must answer exactly TypeParser(T).check_type(S); the task-field converter must answer as for a fresh field and accept whenever the static check accepts",
+            exhaustive=True,
+        )
+        dom1.keys, dom2.keys, dom3.keys = CountedKeys(), CountedKeys(), CountedKeys()
         nproc = min(ctx.pick(8, 16), os.cpu_count() or 1)
         with mp.get_context("fork").Pool(nproc) as pl:
             results = pl.map(_work, [(i, nproc) for i in range(nproc)], chunksize=1)
-        tot = {"d1": _new_res(), "d2": _new_res()}
+        tot = {"d1": _new_res(), "d2": _new_res(), "d3": _new_res()}
         for r in results:
-            for dk, dom in (("d1", dom1), ("d2", dom2)):
+            for dk, dom in (("d1", dom1), ("d2", dom2), ("d3", dom3)):
                 x = r[dk]
                 for f in ("pairs", "accepted", "evals", "exempt"):
                     tot[dk][f] += x[f]
@@ -416,6 +494,12 @@ def replay(rec):
             _replay_state(c, env, state_arrays_one)
             bad = bool(fails)
             print(f"replay C21: StateArray[{case['S']}] -> {case['T']}: {'fails: ' + str(fails[0][1]) if bad else 'ok'}")
+        elif case.get("kind") == "lazy-history":
+            r = _new_res()
+            check_lazy_history(S, T, r)
+            mine = [f for f in r["fails"] if f[2]["history"] == case["history"]]
+            bad = bool(mine)
+            print(f"replay C21: lazy field {case['S']} ({case['history']}) -> input {case['T']}: " + (mine[0][1] if mine else "answers agree with the static check"))
         else:
             v = None
             for w in (3, 2):
